@@ -590,8 +590,8 @@ func explore(r *ev.Run, env *hsenv.Env, m *model, sims chan *hsenv.Sim, base pol
 			}
 			return m.events(s)
 		},
-		Key:      func(s state) string { return s.hskey },
-		Stop:     r.Expired,
+		Key:  func(s state) string { return s.hskey },
+		Stop: r.Expired,
 		Step: func(s state, evn string) (state, bool) {
 			sim := <-sims
 			defer func() { sims <- sim }()
